@@ -34,60 +34,60 @@ theorem src_type_convert_eq (x : Scalar) (i : Int) (bits : Nat) :
 
 /-! ### `get_type` on a list: the head of the list sorted by precedence -/
 
-def precCodes : List (List Nat) := [codesOf "String".toList, codesOf "Float64".toList, codesOf "Int32".toList]
+def tcPrecCodes : List (List Nat) := [codesOf "String".toList, codesOf "Float64".toList, codesOf "Int32".toList]
 
-def rank : Scalar → Nat
+def tcRank : Scalar → Nat
   | .str _ => 0
   | .num _ true => 1
   | .num _ false => 2
 
-def rankName : Nat → List Nat
+def tcRankName : Nat → List Nat
   | 0 => codesOf "String".toList
   | 1 => codesOf "Float64".toList
   | _ => codesOf "Int32".toList
 
-def minRank (xs : List Scalar) : Nat := if xs.any isStr then 0 else if xs.any Das.isFloat then 1 else 2
+def tcMinRank (xs : List Scalar) : Nat := if xs.any isStr then 0 else if xs.any Das.isFloat then 1 else 2
 
-theorem tc_rank (x : Scalar) : codesOf (typeConvert x) = rankName (rank x) := by
+theorem tc_rank (x : Scalar) : codesOf (typeConvert x) = tcRankName (tcRank x) := by
   cases x with
   | str s => rfl
   | num t f => cases f <;> rfl
 
-theorem index_rank (x : Scalar) : indexOf? precCodes (codesOf (typeConvert x)) = some (rank x) := by
+theorem index_rank (x : Scalar) : indexOf? tcPrecCodes (codesOf (typeConvert x)) = some (tcRank x) := by
   cases x with
   | str s => rfl
   | num t f => cases f <;> rfl
 
-theorem listType_rank (xs : List Scalar) : codesOf (listType xs) = rankName (minRank xs) := by
-  unfold listType minRank
+theorem listType_rank (xs : List Scalar) : codesOf (listType xs) = tcRankName (tcMinRank xs) := by
+  unfold listType tcMinRank
   cases xs.any isStr <;> cases xs.any Das.isFloat <;> rfl
 
-def ksort : List Scalar → List (Nat × List Nat)
+def tcSort : List Scalar → List (Nat × List Nat)
   | [] => []
-  | x :: t => insertByKey (rank x) (rankName (rank x)) (ksort t)
+  | x :: t => insertByKey (tcRank x) (tcRankName (tcRank x)) (tcSort t)
 
 theorem sort_types (xs : List Scalar) :
-    sortByIndex precCodes (xs.map fun x => codesOf (typeConvert x)) = .ok (ksort xs) := by
+    sortByIndex tcPrecCodes (xs.map fun x => codesOf (typeConvert x)) = .ok (tcSort xs) := by
   induction xs with
   | nil => rfl
-  | cons x t ih => simp only [List.map_cons, sortByIndex, index_rank, ih, ksort]; rw [tc_rank]
+  | cons x t ih => simp only [List.map_cons, sortByIndex, index_rank, ih, tcSort]; rw [tc_rank]
 
-theorem minRank_aux (x : Scalar) (a b : Bool) :
+theorem tcMinRank_aux (x : Scalar) (a b : Bool) :
     (if (isStr x || a) = true then 0 else if (Das.isFloat x || b) = true then 1 else 2) =
-      if rank x < (if a = true then 0 else if b = true then 1 else 2) then rank x
+      if tcRank x < (if a = true then 0 else if b = true then 1 else 2) then tcRank x
       else (if a = true then 0 else if b = true then 1 else 2) := by
   cases x with
   | str s => cases a <;> cases b <;> rfl
   | num tok f => cases f <;> cases a <;> cases b <;> rfl
 
-theorem minRank_cons (x : Scalar) (t : List Scalar) (_ht : t ≠ []) :
-    minRank (x :: t) = if rank x < minRank t then rank x else minRank t := by
-  unfold minRank
+theorem tcMinRank_cons (x : Scalar) (t : List Scalar) (_ht : t ≠ []) :
+    tcMinRank (x :: t) = if tcRank x < tcMinRank t then tcRank x else tcMinRank t := by
+  unfold tcMinRank
   simp only [List.any_cons]
-  exact minRank_aux x _ _
+  exact tcMinRank_aux x _ _
 
-theorem ksort_head (xs : List Scalar) (h : xs ≠ []) :
-    ∃ r, ksort xs = (minRank xs, rankName (minRank xs)) :: r := by
+theorem tcSort_head (xs : List Scalar) (h : xs ≠ []) :
+    ∃ r, tcSort xs = (tcMinRank xs, tcRankName (tcMinRank xs)) :: r := by
   induction xs with
   | nil => exact absurd rfl h
   | cons x t ih =>
@@ -99,15 +99,15 @@ theorem ksort_head (xs : List Scalar) (h : xs ≠ []) :
       | num tok f => cases f <;> rfl
     | cons y u =>
       obtain ⟨r, hr⟩ := ih (by simp)
-      rw [ksort, hr, minRank_cons x (y :: u) (by simp)]
+      rw [tcSort, hr, tcMinRank_cons x (y :: u) (by simp)]
       simp only [insertByKey]
-      by_cases hlt : rank x < minRank (y :: u)
+      by_cases hlt : tcRank x < tcMinRank (y :: u)
       · simp only [hlt, if_true]; exact ⟨_, rfl⟩
       · simp only [hlt, if_false]; exact ⟨_, rfl⟩
 
 
 /-- a list of strings as MiniPy sees it (`[]` is the untyped empty list) -/
-def strList : List (List Nat) → MiniPy.Val
+def tcStrList : List (List Nat) → MiniPy.Val
   | [] => .ilist []
   | l => .slist l
 
@@ -116,7 +116,7 @@ def getTypeEnv (i : Int) (bits : Nat) (junk : MiniPy.Val) : AVal → Env
   | .sc x => [("values", scalarVal i bits x), ("@has_dtype", .bool false), ("@numpy_type", junk),
               ("@is_iterable", .bool (isStr x)), ("@types", junk)]
   | .list xs => [("values", .obj 0), ("@has_dtype", .bool false), ("@numpy_type", junk),
-                 ("@is_iterable", .bool true), ("@types", strList (xs.map fun x => codesOf (typeConvert x)))]
+                 ("@is_iterable", .bool true), ("@types", tcStrList (xs.map fun x => codesOf (typeConvert x)))]
   | .dict _ => []
 
 theorem src_get_type_scalar (x : Scalar) (i : Int) (bits : Nat) (junk : MiniPy.Val) :
@@ -137,14 +137,14 @@ theorem src_get_type_scalar (x : Scalar) (i : Int) (bits : Nat) (junk : MiniPy.V
 theorem src_get_type_list (xs : List Scalar) (h : xs ≠ []) (i : Int) (bits : Nat) (junk : MiniPy.Val) :
     runItem (getTypeEnv i bits junk (.list xs)) Gen.src_get_type "@ret" = .ok (.str (codesOf (listType xs))) := by
   unfold Gen.src_get_type getTypeEnv
-  obtain ⟨r, hr⟩ := ksort_head xs h
+  obtain ⟨r, hr⟩ := tcSort_head xs h
   have hs := sort_types xs
   rw [hr] at hs
-  have hl : strList (xs.map fun x => codesOf (typeConvert x)) = .slist (xs.map fun x => codesOf (typeConvert x)) := by
+  have hl : tcStrList (xs.map fun x => codesOf (typeConvert x)) = .slist (xs.map fun x => codesOf (typeConvert x)) := by
     cases xs with
     | nil => exact absurd rfl h
     | cons a t => rfl
-  have hp : precCodes = [[83, 116, 114, 105, 110, 103], [70, 108, 111, 97, 116, 54, 52], [73, 110, 116, 51, 50]] := by
+  have hp : tcPrecCodes = [[83, 116, 114, 105, 110, 103], [70, 108, 111, 97, 116, 54, 52], [73, 110, 116, 51, 50]] := by
     decide
   rw [hp] at hs
   simp (decide := true) only [runItem, exec, eval, bind_ok', lookup_cons_eq, lookup_cons_ne, lookup_setVar_eq,
